@@ -47,6 +47,7 @@ def families_e3(prop, tier, seed):
     fams.append(('descriptions', description_family(tier)))
     fams.append(('mirrored within-word expressions', mirrored_subword_family()))
     fams.append(('runs of optional items', optional_runs_family(tier)))
+    fams.append(('one within-word expression written with || and with |', same_subword_twice_shapes()))
     from . import regress
     fams.append(('regression shapes', [regress.HOPCROFT_SPLITTER]))
     nloop = 1000 if tier == 'quick' else 10000
@@ -305,9 +306,24 @@ def check_C11(tier, seed):
     return rep
 
 
+def same_subword_twice_shapes():
+    """the same within-word expression written at two places that differ only in `||` versus `|` (or in the order of the
+    `||` branches): the two occurrences are different expectations although they are made of the same pieces"""
+    L, S, A, F, Sub, Ref = gram.Lit, gram.Seq, gram.Alt, gram.Fb, gram.Sub, gram.Ref
+    out = []
+    for (fb, alt) in ((Sub(L('--o='), F(L('a'), L('b'))), Sub(L('--o='), A(L('a'), L('b')))),
+                      (Sub(L('--m='), F(L('fast'), L('slow'), L('off'))), Sub(L('--m='), F(L('fast'), A(L('slow'), L('off'))))),
+                      (Sub(L('k='), F(L('u'), L('v'))), Sub(L('k='), F(L('v'), L('u'))))):
+        for (first, second) in ((fb, alt), (alt, fb)):
+            out.append(gram.mk('cmd', A(S(first, L('x')), S(L('-f'), second, L('y')))))
+            out.append({'command': 'cmd', 'variants': [S(first, L('x')), S(L('sub'), second, L('y'))], 'defs': []})
+            out.append(gram.mk('cmd', A(S(Ref('P'), L('x')), S(L('-f'), Ref('Q'), L('y'))), [('P', None, first), ('Q', None, second)]))
+    return out
+
+
 def family_c09(tier, seed):
     L, S, A, F, Sub, Ref, Opt, Many = gram.Lit, gram.Seq, gram.Alt, gram.Fb, gram.Sub, gram.Ref, gram.Opt, gram.Many
-    out = []
+    out = list(same_subword_twice_shapes())
     tails = [L('a'), L('b'), S(L('a'), L('b')), Opt(L('a')), Many(L('b'))]
     heads = ['foo', 'fo']
     # the same literal at the start of two || branches / | branches / call variants
@@ -446,6 +462,11 @@ def family_c04(tier, seed):
     for (i, j, k) in list(itertools.combinations(range(len(words)), 3))[:30 if tier == 'quick' else 200]:
         out.append(gram.mk('paint', S(A(words[i], words[j]), Opt(words[k]), L('end', 'the end')), cdef))
     out.append(gram.mk('paint', F(S(L('a', 'da'), words[0]), S(L('b'), words[1]), Many(words[3])), cdef))
+    # a description equal to the literal's own text, one shared by two literals, one that is another literal's text
+    out.append(gram.mk('paint', S(Sub(L('--color='), A(L('always', 'always'), L('never', 'no colors'), L('auto'))), L('end', 'end'))))
+    out.append(gram.mk('paint', S(A(Sub(L('--color='), A(L('always', 'always'), L('never'))), Sub(L('--colour='), A(L('always', 'always'), L('never')))),
+                                  L('x', 'y'), L('y', 'x'))))
+    out.append(gram.mk('paint', S(A(L('--color', 'same text'), L('--colour', 'same text')), Sub(L('-'), A(L('a', 'same text'), L('b', 'b'))))))
     # shell-specific commands (zsh: compadd kind), built-ins, placeholders
     out.append({'command': 'tool', 'variants': [S(Ref('U'), Ref('PATH'), Sub(L('u='), Ref('U')), Ref('DIRECTORY'), Ref('ANY'))],
                 'defs': [('U', 'zsh', Cmd('_users')), ('U', 'fish', Cmd('__fish_complete_users')), ('U', None, Cmd('cat /etc/passwd | cut -d: -f1')),
